@@ -180,6 +180,12 @@ pub fn subjects(thorough: bool) -> Vec<Subject> {
         let s = Spec { order: i, gap: i, root_gap: false, shape, run: 1, offs: Offs::Nested, n: 40, meta: 1, comp: 1 + i as u8, base: 3, hv: 0, level_order: false, cv: 0 };
         out.push(subject_from_bytes(&format!("foreign-nested-40-{shape:?}"), foreign::build(&s).bytes, s.to_json(), if thorough { 60 } else { 30 }));
     }
+    // ids beyond the last tile of zoom 31 (not tile ids of the format, but archives holding them open), in leaves: an
+    // explicit end bound up there and no end bound at all must select the same tiles
+    {
+        let s = Spec { order: 0, gap: 0, root_gap: false, shape: Shape::Leaves, run: 2, offs: Offs::Contiguous, n: 7, meta: 1, comp: 2, base: LAST + 11, hv: 0, level_order: false, cv: 0 };
+        out.push(subject_from_bytes("foreign-ids-beyond-zoom-31-Leaves", foreign::build(&s).bytes, s.to_json(), if thorough { 90 } else { 40 }));
+    }
     out.extend(irregular_subjects());
     // foreign with a leaf pointer id below its first entry and a run ending at u64::MAX-ish ids excluded: ids near zero
     out.push(subject_from_bytes(
@@ -286,7 +292,7 @@ pub fn check_range(s: &Subject, lo: B, hi: B, max_lookups: usize) -> Vec<(String
 pub fn run(tier: &str) -> i32 {
     let rep = Report::new("C11", tier, "exploration");
     let thorough = rep.thorough();
-    rep.rule("for each of 18 archives (4 library-written incl. leaf directories, 8 foreign with depth 2-3, runs straddling leaf boundaries, 40 tiles with nested byte extents, a pointer id below its leaf's first entry; 6 irregular ones in which an id is covered by several entries - reference = the library's own full open): endpoint set V = {0,1,u64::MAX-1,u64::MAX, every leaf first id -1/0/+1, run starts/ends -1/0/+1, max id +-1, entry ids +- 2^32 (+ run length)}; ALL pairs (Included|Excluded|Unbounded)(v) x (Included|Excluded|Unbounded)(v) incl. empty and inverted ranges, through from_bytes_partially, from_reader_partially, from_async_reader_partially, util::read_directories(_async); oracle = full content (spec reader) filtered by RangeBounds::contains; non-trivial = ranges selecting a proper non-empty subset");
+    rep.rule("for each of 19 archives (4 library-written incl. leaf directories, 8 foreign with depth 2-3, runs straddling leaf boundaries, 40 tiles with nested byte extents, a pointer id below its leaf's first entry; 6 irregular ones in which an id is covered by several entries - reference = the library's own full open): endpoint set V = {0,1,u64::MAX-1,u64::MAX, every leaf first id -1/0/+1, run starts/ends -1/0/+1, max id +-1, entry ids +- 2^32 (+ run length)}; ALL pairs (Included|Excluded|Unbounded)(v) x (Included|Excluded|Unbounded)(v) incl. empty and inverted ranges, through from_bytes_partially, from_reader_partially, from_async_reader_partially, util::read_directories(_async); oracle = full content (spec reader) filtered by RangeBounds::contains; non-trivial = ranges selecting a proper non-empty subset");
     rep.assume("build has overflow checks on, as debug builds of users do");
     let subs = subjects(thorough);
     let mut total = 0u64;
